@@ -3,7 +3,8 @@
    where a Go map / a tree puts a binding whose key is new (premise: somewhere, i.e. the result is a
    permutation of the old bindings plus the new one) - so the theorems hold for every iteration order of
    Go maps and for the sorted order of the tree-backed variants alike. *)
-From VF Require Import Common.Base C09.Model C09.Spec C09.Proofs C09.Proofs2 C09.Check.
+From VF Require Import Common.Base C09.Model C09.Spec C09.Proofs C09.Proofs2 C09.TreeModel C09.TreeBridge C09.Check.
+From VF Require C01.Order C01.BinTree C01.RB C01.Containers.
 From Coq Require Import Sorted.
 
 (* hashmap: same answers as the reference map after every operation list; Keys()/Values() up to order *)
@@ -15,7 +16,7 @@ Theorem C09_hashmap : forall (K V : Type) (eqb : K -> K -> bool),
     /\ NoDup (gkeys (fst (run (hm_step eqb ins) [] ops))).
 Proof. intros K V eqb He ins Hi ops. exact (hashmap_refines eqb He ins Hi ops). Qed.
 
-(* hashset (and the abstract treeset) *)
+(* hashset (and any one-table set, e.g. the sorted-insertion table) *)
 Theorem C09_hashset : forall (K : Type) (eqb : K -> K -> bool),
   (forall a b, eqb a b = true <-> a = b) ->
   forall ins : K -> unit -> list (K * unit) -> list (K * unit), (forall k v m, Permutation (ins k v m) ((k, v) :: m)) ->
@@ -58,7 +59,7 @@ Proof.
   - vm_compute. intros H. destruct (H 0%Z) as [H1 _]. destruct (H1 (or_introl eq_refl)) as [E|[]]. discriminate.
 Qed.
 
-(* bidi-maps (hashbidimap: any insertion place; treebidimap, abstractly: sorted insertion): always a bijection
+(* bidi-maps (hashbidimap: any insertion place; also the sorted-insertion tables): always a bijection
    - Get and GetKey inverse of each other, no duplicate keys / values, both tables of the same size - and the
    same answers as the reference partial bijection *)
 Theorem C09_bidi : forall (K V : Type) (keqb : K -> K -> bool) (veqb : V -> V -> bool),
@@ -70,7 +71,7 @@ Theorem C09_bidi : forall (K V : Type) (keqb : K -> K -> bool) (veqb : V -> V ->
     Forall2 (bout_equiv (K:=K) (V:=V)) (snd (run (hb_step keqb veqb kins vins) hb0 ops)) (snd (run (bij_step keqb veqb) [] ops)).
 Proof. intros K V keqb veqb Hk Hv kins vins Hki Hvi ops. exact (bidi_refines keqb veqb Hk Hv kins vins Hki Hvi ops). Qed.
 
-(* set algebra: hashset / abstract treeset - any operands; linkedhashset - operands satisfying the invariant
+(* set algebra: hashset (any one-table set) - any operands; linkedhashset - operands satisfying the invariant
    that C09_linked_set establishes for every reachable set.  The results are fresh values built from New();
    operands are not written by the model's loops (in the functional model they cannot be: that clause is
    exercised on the real code by the harness). *)
@@ -108,7 +109,69 @@ Theorem C09_linked_set_inv : forall (K : Type) (eqb : K -> K -> bool),
   forall ops, LInv (fst (run (ls_step eqb ins) ls0 ops)).
 Proof. intros K eqb He ins Hi ops. exact (linked_set_inv eqb He ins Hi ops). Qed.
 
-(* the abstract tree-backed variants keep both tables strictly sorted (so Keys()/Values() are ordered) *)
+(* ===== treeset and treebidimap on the REAL tree model: the red-black tree of C01 (C01/RB.v, C01/Containers.v:
+   treeset_step, tbidi_step), addressed in C09's operation vocabulary by rb_set_step / rb_bidi_step (C09/TreeModel.v).
+   Premises: the comparator laws of C01 and cmp a b = 0 -> a = b (the built-in int / string comparators);
+   == of the reference containers is then [cmp_eqb cmp a b := cmp a b =? 0].  Corollaries of C01's refinement theorems
+   (tset_step_refines, bidi_step_refines) through the bridge C09/TreeBridge.v. ===== *)
+Definition CmpLaws {K} (cmp : K -> K -> Z) : Prop := VF.C01.Order.CmpLaws cmp.
+Definition separates {K} (cmp : K -> K -> Z) : Prop := forall a b, cmp a b = 0%Z -> a = b.
+
+(* treeset: the answers of the reference set for every operation list; Values() strictly ascending, duplicate free,
+   exactly the reference's elements *)
+Theorem C09_treeset : forall (K : Type) (cmp : K -> K -> Z), CmpLaws cmp -> separates cmp ->
+  forall ops,
+    Forall2 (sout_equiv (K:=K)) (snd (run (rb_set_step cmp) ts_empty ops)) (snd (run (oset_step (cmp_eqb cmp)) [] ops)) /\
+    let s := fst (run (rb_set_step cmp) ts_empty ops) in
+    Permutation (ts_values s) (fst (run (oset_step (cmp_eqb cmp)) [] ops)) /\ NoDup (ts_values s) /\
+    StronglySorted (fun a b => (cmp a b < 0)%Z) (ts_values s).
+Proof. intros K cmp O sep ops. exact (treeset_refines O sep ops). Qed.
+
+(* treebidimap: the answers of the reference partial bijection for every operation list; the two trees are inverse of
+   each other (Get k = v exactly when GetKey v = k), hold the reference's keys / values, and enumerate them in order *)
+Theorem C09_treebidimap : forall (K V : Type) (cmpK : K -> K -> Z) (cmpV : V -> V -> Z) (zeroK : K) (zeroV : V),
+  CmpLaws cmpK -> CmpLaws cmpV -> separates cmpK -> separates cmpV ->
+  forall ops,
+    Forall2 (bout_equiv (K:=K) (V:=V)) (snd (run (rb_bidi_step cmpK cmpV zeroK zeroV) (VF.C01.Containers.tb_empty K V) ops))
+            (snd (run (bij_step (cmp_eqb cmpK) (cmp_eqb cmpV)) [] ops)) /\
+    let s := fst (run (rb_bidi_step cmpK cmpV zeroK zeroV) (VF.C01.Containers.tb_empty K V) ops) in
+    let b := fst (run (bij_step (cmp_eqb cmpK) (cmp_eqb cmpV)) [] ops) in
+    (forall k v, VF.C01.BinTree.lookup cmpK k (VF.C01.RB.root (VF.C01.Containers.fwd s)) = Some v <->
+                 VF.C01.BinTree.lookup cmpV v (VF.C01.RB.root (VF.C01.Containers.inv s)) = Some k) /\
+    Permutation (tb_keys s) (map fst b) /\ Permutation (tb_vals s) (map snd b) /\
+    StronglySorted (fun a c => (cmpK a c < 0)%Z) (tb_keys s) /\ StronglySorted (fun a c => (cmpV a c < 0)%Z) (tb_vals s).
+Proof. intros K V cmpK cmpV zeroK zeroV OK OV sK sV ops. exact (treebidimap_refines OK OV sK sV zeroK zeroV ops). Qed.
+
+(* treeset's Union / Intersection / Difference (the code's loops over the tree iterator, result := NewWith(comparator),
+   both operands with the same comparator), operands reached by ANY two operation lists: the mathematical result, in a
+   duplicate-free, strictly ascending tree set *)
+Theorem C09_algebra_tree : forall (K : Type) (cmp : K -> K -> Z), CmpLaws cmp -> separates cmp ->
+  forall aops bops,
+    let a := fst (run (rb_set_step cmp) ts_empty aops) in
+    let b := fst (run (rb_set_step cmp) ts_empty bops) in
+    (is_union (ts_values (ts_union cmp a b)) (ts_values a) (ts_values b) /\
+     StronglySorted (fun x y => (cmp x y < 0)%Z) (ts_values (ts_union cmp a b))) /\
+    (is_inter (ts_values (ts_inter cmp a b)) (ts_values a) (ts_values b) /\
+     StronglySorted (fun x y => (cmp x y < 0)%Z) (ts_values (ts_inter cmp a b))) /\
+    (is_diff (ts_values (ts_diff cmp a b)) (ts_values a) (ts_values b) /\
+     StronglySorted (fun x y => (cmp x y < 0)%Z) (ts_values (ts_diff cmp a b))).
+Proof. intros K cmp O sep aops bops. exact (treeset_algebra_reachable O sep aops bops). Qed.
+
+(* the sorted-insertion tables (one table for the set, two for the bidi-map) answer EXACTLY as the red-black models:
+   this is what licenses their use as the abstract tree containers in C15's JSON model *)
+Theorem C09_tree_abstract_agrees : forall (K V : Type) (cmpK : K -> K -> Z) (cmpV : V -> V -> Z) (zeroK : K) (zeroV : V),
+  CmpLaws cmpK -> CmpLaws cmpV -> separates cmpK -> separates cmpV ->
+  (forall ops, snd (run (rb_set_step cmpK) ts_empty ops) =
+               snd (run (gs_step (cmp_eqb cmpK) (ins_sorted (cmp_ltb cmpK))) [] ops)) /\
+  (forall ops, snd (run (rb_bidi_step cmpK cmpV zeroK zeroV) (VF.C01.Containers.tb_empty K V) ops) =
+               snd (run (hb_step (cmp_eqb cmpK) (cmp_eqb cmpV) (ins_sorted (cmp_ltb cmpK)) (ins_sorted (cmp_ltb cmpV))) hb0 ops)).
+Proof.
+  intros K V cmpK cmpV zeroK zeroV OK OV sK sV. split.
+  - intros ops. exact (treeset_abstract_agrees OK sK ops).
+  - intros ops. exact (treebidimap_abstract_agrees OK OV sK sV zeroK zeroV ops).
+Qed.
+
+(* the sorted-insertion tables stay strictly sorted (so their Keys()/Values() are ordered) *)
 Theorem C09_tree_sorted : forall (K V : Type) (keqb : K -> K -> bool) (veqb : V -> V -> bool),
   (forall a b, keqb a b = true <-> a = b) -> (forall a b, veqb a b = true <-> a = b) ->
   forall (kltb : K -> K -> bool) (vltb : V -> V -> bool),
@@ -137,6 +200,21 @@ Example C09_nonvacuous :
 Proof.
   split; [exact Z.eqb_eq|]. split; [intros; apply Permutation_refl|]. split; vm_compute; reflexivity.
 Qed.
+(* ... and for the tree variants: the int comparator meets the premises; a run on the red-black treeset and treebidimap *)
+Example C09_tree_nonvacuous :
+  CmpLaws VF.C01.Order.zcmp /\ separates VF.C01.Order.zcmp /\
+  snd (run (rb_set_step VF.C01.Order.zcmp) ts_empty [SAdd [3; 1; 2; 1]; SRemove [2; 7]; SContains [1; 3]; SSize; SValues]%Z)
+  = [SONone; SONone; SOBool true; SOSize 2; SOValues [1; 3]]%Z /\
+  snd (run (rb_bidi_step VF.C01.Order.zcmp VF.C01.Order.zcmp 0%Z 0%Z) (VF.C01.Containers.tb_empty Z Z)
+           [BPut 2 7; BPut 1 8; BPut 2 8; BGet 1; BGetKey 8; BGetKey 7; BSize; BKeys; BValues]%Z)
+  = [BONone; BONone; BONone; BOGet None; BOGetKey (Some 2); BOGetKey None; BOSize 1; BOKeys [2]; BOValues [8]]%Z /\
+  ts_values (ts_inter VF.C01.Order.zcmp (fst (run (rb_set_step VF.C01.Order.zcmp) ts_empty [SAdd [5; 1; 3]]%Z))
+                                        (fst (run (rb_set_step VF.C01.Order.zcmp) ts_empty [SAdd [3; 4; 5; 6]]%Z))) = [3; 5]%Z.
+Proof.
+  split; [exact VF.C01.Order.zcmp_laws|]. split.
+  - intros a b. unfold VF.C01.Order.zcmp. destruct (Z.eqb_spec a b); [auto|]. destruct (a >? b)%Z; discriminate.
+  - repeat split; vm_compute; reflexivity.
+Qed.
 
 Print Assumptions C09_hashmap.
 Print Assumptions C09_hashset.
@@ -148,3 +226,7 @@ Print Assumptions C09_algebra.
 Print Assumptions C09_algebra_linked.
 Print Assumptions C09_linked_set_inv.
 Print Assumptions C09_tree_sorted.
+Print Assumptions C09_treeset.
+Print Assumptions C09_treebidimap.
+Print Assumptions C09_algebra_tree.
+Print Assumptions C09_tree_abstract_agrees.
